@@ -451,6 +451,8 @@ func c01(r *Report, s *Sem) {
 	c01TextForms(r, s, R6)
 	R10 := r.Rule("R10", "a text form never drops a field: for every return of Node/Identity/MediaType.String() the fields that do not flow into the returned text are known empty (or the whole value zero) on the edge taken — otherwise two different values share one text and parsing cannot give the value back", 3)
 	c01TextComplete(r, s, R10)
+	R12 := r.Rule("R12", "encoder discipline: every wire member an encoder stores has one source among the fields of the value being encoded, whatever the path, and a conditional store is conditional on presence only (a field against its zero value, or a call's error) — never on a comparison of two computed values", 20)
+	checkEncoderSources(r, R12)
 	R7 := r.Rule("R7", "text-form parsers return only verbatim pieces of their input (split/slice of the parameter, or a sibling parser applied to such a piece): no call may transform characters between the text and the parsed value, since the printer writes the fields verbatim", 3)
 	checkVerbatimParsers(r, R7)
 	R8 := r.Rule("R8", "co-presence symmetry: when the encoder emits a wire member only together with another struct field being present, the decoder stores the corresponding field only when that other member is present on the wire", 10)
